@@ -54,8 +54,10 @@ theorem TokInv.endURL {toks : List Tok} {url : Bool} {t : Tok} (h : TokInv toks 
 
 /-- what a case returns, against what the pure case returns -/
 def CaseRef (st : St) (lp : Loop) (r : CSt × Bool) : CaseOut → Prop
-  | .next st' lp' => r = (proj st' lp', false) ∧ (TokInv st.toks lp.emittedURL → TokInv st'.toks lp'.emittedURL)
-  | .fall st' lp' => r = (proj st' lp', true) ∧ (TokInv st.toks lp.emittedURL → TokInv st'.toks lp'.emittedURL)
+  | .next st' lp' => r = (proj st' lp', false) ∧ (TokInv st.toks lp.emittedURL → TokInv st'.toks lp'.emittedURL) ∧
+      st'.lbase = st.lbase
+  | .fall st' lp' => r = (proj st' lp', true) ∧ (TokInv st.toks lp.emittedURL → TokInv st'.toks lp'.emittedURL) ∧
+      st'.lbase = st.lbase
 
 /-! ## `isEndScript` / `isEndStyle` at the current position -/
 
@@ -80,6 +82,26 @@ theorem endStyleAt_val {E : Env} {st : St} {lp : Loop} {c : UInt8} (hlt : lp.p <
 theorem peek_abs1 (E : Env) (st : St) (lp : Loop) : E.text[(proj st lp).pos + 1]? = peek E st (lp.p + 1) := by
   unfold peek proj; rw [Nat.add_assoc]
 
+theorem peek_abs2 (E : Env) (st : St) (lp : Loop) : E.text[(proj st lp).pos + 2]? = peek E st (lp.p + 2) := by
+  unfold peek proj; rw [Nat.add_assoc]
+
+theorem peek2_bound {E : Env} {st : St} {p : Nat} {a : UInt8} (h : peek E st (p + 2) = some a) :
+    p + 2 < srcLen E st := by
+  unfold peek at h; unfold srcLen
+  have := (List.getElem?_eq_some_iff.mp h).1
+  omega
+
+/-- the bound `p+2 < len(l.src)` of the U+2028 / U+2029 test is implied by the access at `p+2` -/
+theorem lineEnd_bound (E : Env) (st : St) (lp : Loop) (c : UInt8) :
+    (c = 0xe2 ∧ lp.p + 2 < srcLen E st ∧ peek E st (lp.p + 1) = some 0x80 ∧
+      (peek E st (lp.p + 2) = some 0xa8 ∨ peek E st (lp.p + 2) = some 0xa9)) ↔
+    (c = 0xe2 ∧ peek E st (lp.p + 1) = some 0x80 ∧
+      (peek E st (lp.p + 2) = some 0xa8 ∨ peek E st (lp.p + 2) = some 0xa9)) := by
+  constructor
+  · rintro ⟨h1, _, h3, h4⟩; exact ⟨h1, h3, h4⟩
+  · rintro ⟨h1, h3, h4⟩
+    exact ⟨h1, by rcases h4 with h | h <;> exact peek2_bound h, h3, h4⟩
+
 /-- close a goal `(s', b) = (proj st' lp', b)` where both sides are explicit -/
 macro "proj_eq" : tactic =>
   `(tactic| (simp [proj, FHtml, addCol, newline, Nat.add_assoc]))
@@ -96,34 +118,34 @@ theorem caseJS_ref {E : Env} {st : St} {lp : Loop} {c : UInt8}
   have hlen : (proj st lp).pos + 1 < E.text.length ↔ lp.p + 1 < srcLen E st := by
     unfold proj srcLen; simp only []; omega
   have hjs : (proj st lp).jsComment = lp.jsComment := rfl
-  simp only [bind_ok, peek_abs1, hlen, hjs, peekIs, beq_iff_eq]
+  simp only [bind_ok, peek_abs1, peek_abs2, hlen, hjs, peekIs, beq_iff_eq, lineEnd_bound]
   cases hes : endScriptP E.text (proj st lp) c with
   | true =>
     simp only [if_true]
-    exact ⟨_, rfl, by proj_eq, id⟩
+    exact ⟨_, rfl, by proj_eq, id, rfl⟩
   | false =>
     simp only [Bool.false_eq_true, if_false]
     isplit
     · isplit
-      · exact ⟨_, rfl, by proj_eq, id⟩
-      · exact ⟨_, rfl, by proj_eq, id⟩
+      · exact ⟨_, rfl, by proj_eq, id, rfl⟩
+      · exact ⟨_, rfl, by proj_eq, id, rfl⟩
     · isplit
       · isplit
-        · exact ⟨_, rfl, by proj_eq, id⟩
-        · exact ⟨_, rfl, by proj_eq, id⟩
+        · exact ⟨_, rfl, by proj_eq, id, rfl⟩
+        · exact ⟨_, rfl, by proj_eq, id, rfl⟩
       · isplit
         · generalize peek E st (lp.p + 1) = d
           split
-          · exact ⟨_, rfl, by proj_eq, id⟩
-          · exact ⟨_, rfl, by proj_eq, id⟩
+          · exact ⟨_, rfl, by proj_eq, id, rfl⟩
+          · exact ⟨_, rfl, by proj_eq, id, rfl⟩
           · rename_i _ h47 h42
             split
             · exact (h47 rfl).elim
             · exact (h42 rfl).elim
-            · exact ⟨_, rfl, by proj_eq, id⟩
+            · exact ⟨_, rfl, by proj_eq, id, rfl⟩
         · isplit
-          · exact ⟨_, rfl, by proj_eq, id⟩
-          · exact ⟨_, rfl, by proj_eq, id⟩
+          · exact ⟨_, rfl, by proj_eq, id, rfl⟩
+          · exact ⟨_, rfl, by proj_eq, id, rfl⟩
 
 theorem caseJSString_ref {E : Env} {st : St} {lp : Loop} {c : UInt8} (back : Nat) (q : UInt8)
     (hlt : lp.p < srcLen E st) :
@@ -134,15 +156,15 @@ theorem caseJSString_ref {E : Env} {st : St} {lp : Loop} {c : UInt8} (back : Nat
   simp only [bind_ok, peek_abs1]
   isplit
   · isplit
-    · exact ⟨_, rfl, by proj_eq, id⟩
-    · exact ⟨_, rfl, by proj_eq, id⟩
+    · exact ⟨_, rfl, by proj_eq, id, rfl⟩
+    · exact ⟨_, rfl, by proj_eq, id, rfl⟩
   · isplit
-    · exact ⟨_, rfl, by proj_eq, id⟩
+    · exact ⟨_, rfl, by proj_eq, id, rfl⟩
     · isplit
       · cases hes : endScriptP E.text (proj st lp) c with
-        | true => exact ⟨_, rfl, by proj_eq, id⟩
-        | false => exact ⟨_, rfl, by proj_eq, id⟩
-      · exact ⟨_, rfl, by proj_eq, id⟩
+        | true => exact ⟨_, rfl, by proj_eq, id, rfl⟩
+        | false => exact ⟨_, rfl, by proj_eq, id, rfl⟩
+      · exact ⟨_, rfl, by proj_eq, id, rfl⟩
 
 theorem caseJSON_ref {E : Env} {st : St} {lp : Loop} {c : UInt8}
     (hlt : lp.p < srcLen E st) :
@@ -151,12 +173,12 @@ theorem caseJSON_ref {E : Env} {st : St} {lp : Loop} {c : UInt8}
   rw [endScriptAt_val hlt]
   simp only [bind_ok]
   cases hes : endScriptP E.text (proj st lp) c with
-  | true => exact ⟨_, rfl, by proj_eq, id⟩
+  | true => exact ⟨_, rfl, by proj_eq, id, rfl⟩
   | false =>
     simp only [Bool.false_eq_true, if_false]
     isplit
-    · exact ⟨_, rfl, by proj_eq, id⟩
-    · exact ⟨_, rfl, by proj_eq, id⟩
+    · exact ⟨_, rfl, by proj_eq, id, rfl⟩
+    · exact ⟨_, rfl, by proj_eq, id, rfl⟩
 
 theorem caseCSS_ref {E : Env} {st : St} {lp : Loop} {c : UInt8}
     (hlt : lp.p < srcLen E st) :
@@ -168,23 +190,23 @@ theorem caseCSS_ref {E : Env} {st : St} {lp : Loop} {c : UInt8}
   simp only [bind_ok, peek_abs1, hctx, hq]
   isplit
   · cases hes : endStyleP E.text (proj st lp) c with
-    | true => exact ⟨_, rfl, by proj_eq, id⟩
+    | true => exact ⟨_, rfl, by proj_eq, id, rfl⟩
     | false =>
       simp only [Bool.false_eq_true, if_false]
       isplit
-      · exact ⟨_, rfl, by proj_eq, id⟩
-      · exact ⟨_, rfl, by proj_eq, id⟩
+      · exact ⟨_, rfl, by proj_eq, id, rfl⟩
+      · exact ⟨_, rfl, by proj_eq, id, rfl⟩
   · isplit
     · isplit
-      · exact ⟨_, rfl, by proj_eq, id⟩
-      · exact ⟨_, rfl, by proj_eq, id⟩
+      · exact ⟨_, rfl, by proj_eq, id, rfl⟩
+      · exact ⟨_, rfl, by proj_eq, id, rfl⟩
     · isplit
-      · exact ⟨_, rfl, by proj_eq, id⟩
+      · exact ⟨_, rfl, by proj_eq, id, rfl⟩
       · isplit
         · cases hes : endStyleP E.text (proj st lp) c with
-          | true => exact ⟨_, rfl, by proj_eq, id⟩
-          | false => exact ⟨_, rfl, by proj_eq, id⟩
-        · exact ⟨_, rfl, by proj_eq, id⟩
+          | true => exact ⟨_, rfl, by proj_eq, id, rfl⟩
+          | false => exact ⟨_, rfl, by proj_eq, id, rfl⟩
+        · exact ⟨_, rfl, by proj_eq, id, rfl⟩
 
 /-! ## emit, with the token it pushes -/
 
@@ -194,7 +216,14 @@ theorem emitAt_val {E : Env} {st : St} {line col typ n : Nat} (h : n ≤ srcLen 
       t.ctx = (if typ = tokenText then ContextText else st.ctx) ∧ (0 < n → t.start = (st.base : Int)) := by
   obtain ⟨st', h1, hext, hbase, hl, hc, hctx, _, htn, hta, hti, htc, t, htoks, htyp, _, _, htl, hspan⟩ :=
     emitAt_ok (E := E) (st := st) (line := line) (col := col) (typ := typ) (n := n) h hb
-  refine ⟨st', t, h1, hext, hbase, ⟨hctx, htc, htn, hta, hti⟩, hl, hc, htoks, htyp, ?_, ?_⟩
+  have hlb : st'.lbase = st.lbase := by
+    have h1' := h1
+    unfold emitAt at h1'
+    have hn : ¬ srcLen E st < n := by omega
+    simp only [hn, if_false] at h1'
+    injection h1' with h1'
+    rw [← h1']
+  refine ⟨st', t, h1, hext, hbase, ⟨hctx, htc, htn, hta, hti, hlb⟩, hl, hc, htoks, htyp, ?_, ?_⟩
   · unfold emitAt at h1
     have hn : ¬ srcLen E st < n := by omega
     simp only [hn, if_false] at h1
@@ -293,10 +322,10 @@ theorem caseAttr_ref {E : Env} {st : St} {lp : Loop} {c : UInt8} (hI : LoopInv E
         exact (tk1 _ hinv).endURL ty2
       have hpos : st.base + lp.p = st2.base + 0 := by rw [b2, b1]; rfl
       isplit
-      · refine ⟨_, rfl, ?_, htok⟩
+      · refine ⟨_, rfl, ?_, htok, cf.lbase⟩
         congr 1
         apply eq_proj <;> simp only [resetTok, proj, hpos, cf.tagCtx, cf.tagName]
-      · refine ⟨_, rfl, ?_, htok⟩
+      · refine ⟨_, rfl, ?_, htok, cf.lbase⟩
         congr 1
         apply eq_proj <;> simp only [resetTok, proj, hpos, cf.tagCtx, cf.tagName]
     · simp only [if_neg hurl]
@@ -304,9 +333,9 @@ theorem caseAttr_ref {E : Env} {st : St} {lp : Loop} {c : UInt8} (hI : LoopInv E
       simp only [bind_ok, pure_eq_ok]
       have hf : lp.emittedURL = false := by simpa using hurl
       isplit
-      · exact ⟨_, rfl, by simp [proj, typeAttrP], id⟩
-      · exact ⟨_, rfl, by simp [proj, typeAttrP], id⟩
-  · exact ⟨_, rfl, rfl, id⟩
+      · exact ⟨_, rfl, by simp [proj, typeAttrP], id, rfl⟩
+      · exact ⟨_, rfl, by simp [proj, typeAttrP], id, rfl⟩
+  · exact ⟨_, rfl, rfl, id, rfl⟩
 
 /-! ## the `<` of HTML -/
 
@@ -365,7 +394,7 @@ theorem caseLT_ref {E : Env} {st : St} {lp : Loop} (hI : LoopInv E st lp) (hlt :
       simp only [walk, hw, bind_ok, pure_eq_ok]
       have hs2 := hs.trans hs1
       have cf := CF.of_same hs2
-      refine ⟨_, rfl, ?_, by rw [hs2.toks]; exact id⟩
+      refine ⟨_, rfl, ?_, by rw [hs2.toks]; exact id, cf.lbase⟩
       rw [← ht4]
       congr 1
       apply eq_proj
@@ -402,7 +431,11 @@ theorem caseLT_ref {E : Env} {st : St} {lp : Loop} (hI : LoopInv E st lp) (hlt :
     simp only [h1, bind_ok, pure_eq_ok, hp, h5]
     have hs2 := hs.trans h2
     have cf := CF.of_same hs2
-    refine ⟨_, rfl, ?_, ?_⟩
+    refine ⟨_, rfl, ?_, ?_, ?_⟩
+    rotate_left 2
+    · have hlb := cf.lbase
+      repeat' split
+      all_goals exact hlb
     · congr 1
       have hb2 := hs2.base
       isplit
@@ -434,14 +467,14 @@ theorem caseTag_url {E : Env} (st2 : St) (lp2 : Loop) (actx : Nat) (hb : st2.bas
         .ok (.next st4 { resetTok st4 lp2 with emittedURL := true }) ∧
       st4.base = st2.base + lp2.p ∧ st4.ctx = actx ∧ st4.tagCtx = st2.tagCtx ∧ st4.tagName = st2.tagName ∧
       st4.tagAttr = st2.tagAttr ∧ st4.tagIndex = st2.tagIndex ∧
-      (∀ url, TokInv st2.toks url → TokInv st4.toks true) := by
+      (∀ url, TokInv st2.toks url → TokInv st4.toks true) ∧ st4.lbase = st2.lbase := by
   obtain ⟨st3, t3, h3, e3, b3, cf3, _, _, tk3, ty3, _⟩ := emitAt_val (E := E) (st := st2) (line := lp2.lin) (col := lp2.tcol)
     (typ := tokenText) (n := lp2.p) hp hb
   simp only [h3, bind_ok]
   obtain ⟨st4, t4, h4, e4, b4, cf4, _, _, tk4, ty4, _⟩ := emit_val (E := E) (st := { st3 with ctx := actx })
     (typ := tokenStartURL) (n := 0) (Nat.zero_le _) e3.le_len
   simp only [h4, bind_ok, pure_eq_ok]
-  refine ⟨st4, rfl, ?_, cf4.ctx, ?_, ?_, ?_, ?_, ?_⟩
+  refine ⟨st4, rfl, ?_, cf4.ctx, ?_, ?_, ?_, ?_, ?_, by rw [cf4.lbase]; exact cf3.lbase⟩
   · rw [b4]; show st3.base + 0 = _; rw [b3]; rfl
   · rw [cf4.tagCtx]; exact cf3.tagCtx
   · rw [cf4.tagName]; exact cf3.tagName
@@ -478,7 +511,7 @@ theorem caseTag_ref {E : Env} {st : St} {lp : Loop} {c : UInt8} (hI : LoopInv E 
   · rename_i h3e
     have hne : ¬ c = 0x2f := by rw [h3e]; decide
     simp only [if_neg hne]
-    exact ⟨_, rfl, by proj_eq, id⟩
+    exact ⟨_, rfl, by proj_eq, id, rfl⟩
   · isplit
     · obtain ⟨st1, attr, next, h1, hs1, hn1, hn2, h5⟩ := scanAttribute_val (E := E) (st := st) (p := lp.p) (by omega) hb
       have hp1 : (proj st lp).tagName = st.tagName := rfl
@@ -497,7 +530,7 @@ theorem caseTag_ref {E : Env} {st : St} {lp : Loop} {c : UInt8} (hI : LoopInv E 
         rw [hd]
         generalize hdv : (if attr ≠ [] then E.text[st.base + next]? else none) = d
         cases d with
-        | none => exact ⟨_, rfl, by proj_eq, id⟩
+        | none => exact ⟨_, rfl, by proj_eq, id, rfl⟩
         | some q =>
           have hqlt : next < srcLen E st := by
             split at hdv
@@ -508,12 +541,12 @@ theorem caseTag_ref {E : Env} {st : St} {lp : Loop} {c : UInt8} (hI : LoopInv E 
           · simp only [if_pos hq]
             have hqne : ¬ q = 0 := by rcases hq with h | h <;> rw [h] <;> decide
             by_cases hurl : containsURL st.tagName attr = true
-            · obtain ⟨st4, h4, b4, c4, tc4, tn4, ta4, ti4, tk4⟩ := caseTag_url (E := E)
+            · obtain ⟨st4, h4, b4, c4, tc4, tn4, ta4, ti4, tk4, lb4⟩ := caseTag_url (E := E)
                 (addCol { ({ st with line := L, col := C } : St) with tagAttr := attr } 1)
                 ({ ({ lp with p := next } : Loop) with quote := q, p := next + 1 })
                 (if q = 0 then ContextUnquotedAttr else ContextQuotedAttr) hb (by show next + 1 ≤ srcLen E st; omega)
               simp only [addCol, hurl, ↓reduceIte]
-              refine ⟨_, h4, ?_, ?_⟩
+              refine ⟨_, h4, ?_, ?_, lb4⟩
               · congr 1
                 apply eq_proj
                 · rw [b4]; simp only [addCol, resetTok]; omega
@@ -528,15 +561,15 @@ theorem caseTag_ref {E : Env} {st : St} {lp : Loop} {c : UInt8} (hI : LoopInv E 
               · exact tk4 _
             · have hf : containsURL st.tagName attr = false := by simpa using hurl
               simp only [addCol, hf, Bool.false_eq_true, ↓reduceIte]
-              exact ⟨_, rfl, by proj_eq, id⟩
+              exact ⟨_, rfl, by proj_eq, id, rfl⟩
           · simp only [if_neg hq]
             by_cases hurl : containsURL st.tagName attr = true
-            · obtain ⟨st4, h4, b4, c4, tc4, tn4, ta4, ti4, tk4⟩ := caseTag_url (E := E)
+            · obtain ⟨st4, h4, b4, c4, tc4, tn4, ta4, ti4, tk4, lb4⟩ := caseTag_url (E := E)
                 ({ ({ st with line := L, col := C } : St) with tagAttr := attr })
                 ({ lp with p := next } : Loop)
                 (if lp.quote = 0 then ContextUnquotedAttr else ContextQuotedAttr) hb (by show next ≤ srcLen E st; omega)
               simp only [hurl, ↓reduceIte]
-              refine ⟨_, h4, ?_, ?_⟩
+              refine ⟨_, h4, ?_, ?_, lb4⟩
               · congr 1
                 apply eq_proj
                 · rw [b4]; simp only [resetTok]; omega
@@ -551,12 +584,12 @@ theorem caseTag_ref {E : Env} {st : St} {lp : Loop} {c : UInt8} (hI : LoopInv E 
               · exact tk4 _
             · have hf : containsURL st.tagName attr = false := by simpa using hurl
               simp only [hf, Bool.false_eq_true, ↓reduceIte]
-              exact ⟨_, rfl, by proj_eq, id⟩
+              exact ⟨_, rfl, by proj_eq, id, rfl⟩
       · have hgt' : ¬ st.base + next > st.base + lp.p := by omega
         simp only [if_neg hgt, if_neg hgt']
         have : next = lp.p := by omega
         subst this
-        exact ⟨_, rfl, by proj_eq, id⟩
-    · exact ⟨_, rfl, rfl, id⟩
+        exact ⟨_, rfl, by proj_eq, id, rfl⟩
+    · exact ⟨_, rfl, rfl, id, rfl⟩
 
 end ScriggoV.LexCtx
